@@ -69,6 +69,7 @@ def gen_case(rng, cid):
     used = []
     chains = {}
     withmap = []
+    nsoak = 0
     nid = 0
     late = []         # (countdown, op) scheduled late ops on exited ids
     nops = rng.randint(15, 90)
@@ -144,9 +145,12 @@ def gen_case(rng, cid):
             # many goroutines at one instant on their own resources; the final account must be the sequential ledger's
             R = rng.choice([1, 2, 3])
             ops.append(f"soak {rng.choice([2, 4, 8])} {rng.choice([10, 40, 120])} {R} {rng.randint(0, 10 ** 6)}")
-            for j in range(R):
-                if f"s{j}" not in used:
-                    used.append(f"s{j}")
+            nsoak += 1
+            for name in [f"s{j}" for j in range(R)] + [f"f{nsoak}_{j}" for j in range(3)]:
+                if name not in used:
+                    used.append(name)
+            for j in range(3):
+                ops.append(f"read f{nsoak}_{j} sum10 {rng.choice(['pass', 'complete'])}")
         elif r < 0.93:
             key = rng.choice((used or ress) + ["__inbound__"]) if rng.random() < 0.93 else rng.choice(ress + ["nosuch"])
             g = rng.choice(["sum", "sum", "sum10", "conc", "conc", "maxconc", "minrt", "type"])
@@ -171,7 +175,8 @@ def gen_case(rng, cid):
             ops.append("reclog")
     ops.extend(o for _, o in late)
     # closing: sometimes drain everything and look at the idle state
-    if rng.random() < 0.6:
+    # (always when a hotspot rule is loaded: a lock left behind by a recovered panic must be met by an op of this case)
+    if hot or rng.random() < 0.6:
         for i in live:
             ops.append(f"exit {i}")
         for r in used + ["__inbound__"]:
